@@ -302,3 +302,31 @@ pub unsafe fn peek(base: *const u8, k: usize) -> u8 {
     }
     arms!(0 1 2 3 4 5 6 7 8 9 10 11 12 13 14 15 16 17 18 19 20 21 22 23 24 25 26 27 28 29 30 31)
 }
+
+/// A window of 32 bytes with a CONCRETE base pointer inside a chunk, through which single bytes at symbolic
+/// offsets are written/read by case split (see `common::poke`).
+#[derive(Clone, Copy)]
+pub struct Win {
+    base: *mut u8,
+    lo: usize,
+}
+
+impl Win {
+    /// the window covering the bump side of a chunk's content range
+    pub fn of<A, St: BumpAllocatorSettings>(c: bump_scope::stats::Chunk<'_, A, St>) -> Win {
+        let (s, e) = (c.content_start().as_ptr(), c.content_end().as_ptr());
+        let cap = e as usize - s as usize;
+        let base = if St::UP || cap <= 32 { s } else { unsafe { e.sub(32) } };
+        Win { base, lo: base as usize }
+    }
+    pub fn holds(&self, addr: usize) -> bool {
+        addr >= self.lo && addr < self.lo + 32
+    }
+    pub unsafe fn write(&self, addr: usize, v: u8) {
+        unsafe { poke(self.base, addr - self.lo, v) }
+    }
+    pub unsafe fn read(&self, addr: usize) -> u8 {
+        unsafe { peek(self.base, addr - self.lo) }
+    }
+}
+
